@@ -761,3 +761,72 @@ Definition run_multi (inp : list Z) : list Z :=
       end
   | _ => bad_input
   end.
+
+(* ---- components of C18: socket ports ---- *)
+Require Import Mido.Model.Sockets.
+Definition in_sev (x : Z) : sev := if x =? -1 then SGap else if x =? -2 then SEof else if x =? -3 then SDied else SByte x.
+Definition out_sstate (p : sport) : list Z :=
+  [if s_closed p then 1 else 0; if peer_sees_disconnect p then 1 else 0; Z.of_nat (s_sleeps p); zlen (s_queue p)].
+Definition out_mres (r : res (option msg)) : list Z :=
+  match r with Ok None => [1; 0] | Ok (Some m) => 1 :: 1 :: out_msg m | Raise e => [3; exn_code e] end.
+Definition out_lres (r : res (list msg)) : list Z := match r with Ok l => 2 :: out_msgs l | Raise e => [3; exn_code e] end.
+Fixpoint run_sops (v : variant) (fuel : nat) (n : nat) (p : sport) (l : list Z) : list Z :=
+  match n with
+  | O => []
+  | S k =>
+    match l with
+    | [] => out_msgs (s_queue p)
+    | 0 :: b :: r => let '(p1, x) := s_receive v fuel (negb (b =? 0)) p in out_mres x ++ out_sstate p1 ++ [-9] ++ run_sops v fuel k p1 r
+    | 1 :: r => let '(p1, x) := s_receive v fuel false p in out_mres x ++ out_sstate p1 ++ [-9] ++ run_sops v fuel k p1 r
+    | 2 :: r => let '(p1, x) := s_iterate v (S (S (length (s_in p) + length (s_queue p)))) fuel p in out_lres x ++ out_sstate p1 ++ [-9] ++ run_sops v fuel k p1 r
+    | 3 :: r => let p1 := s_close v p in [0] ++ out_sstate p1 ++ [-9] ++ run_sops v fuel k p1 r
+    | 4 :: r => let '(p1, x) := s_iter_pending v (S (S (length (s_in p) + length (s_queue p)))) fuel p in out_lres x ++ out_sstate p1 ++ [-9] ++ run_sops v fuel k p1 r
+    | _ => bad_input
+    end
+  end.
+Definition in_variant (cf dd : Z) : variant := {| v_close_files := negb (cf =? 0); v_died_is_disconnect := negb (dd =? 0) |}.
+Definition run_sock (inp : list Z) : list Z :=
+  match inp with
+  | cf :: dd :: fuel :: r =>
+      match in_list r with
+      | Some (evs, ops) => run_sops (in_variant cf dd) (Z.to_nat fuel) (S (length ops)) (new_sport (map in_sev evs)) ops
+      | None => bad_input
+      end
+  | _ => bad_input
+  end.
+Fixpoint in_sports (n : nat) (l : list Z) : option (list sport * list Z) :=
+  match n with
+  | O => Some ([], l)
+  | S k => match in_list l with
+           | Some (evs, r) => match in_sports k r with Some (ps, r') => Some (new_sport (map in_sev evs) :: ps, r') | None => None end
+           | None => None
+           end
+  end.
+Fixpoint run_server_n (v : variant) (n fuel : nat) (block : bool) (s : server) : list Z :=
+  match n with
+  | O => [Z.of_nat (sv_sleeps s); zlen (sv_clients s); zlen (filter (fun c => s_closed c) (sv_clients s))]
+  | S k => let '(s', r) := sv_receive v fuel block s in out_mres r ++ [-9] ++ run_server_n v k fuel block s'
+  end.
+(* [close_files; died; fuel; block; nclients; clients...; nwaiting; waiting...; receives] *)
+Definition run_server (inp : list Z) : list Z :=
+  match inp with
+  | cf :: dd :: fuel :: b :: nc :: r =>
+      match in_sports (Z.to_nat nc) r with
+      | Some (cl, nw :: r1) =>
+          match in_sports (Z.to_nat nw) r1 with
+          | Some (wt, [k]) => run_server_n (in_variant cf dd) (Z.to_nat k) (Z.to_nat fuel) (negb (b =? 0))
+                                {| sv_clients := cl; sv_waiting := wt; sv_queue := []; sv_sleeps := 0 |}
+          | _ => bad_input
+          end
+      | _ => bad_input
+      end
+  | _ => bad_input
+  end.
+Definition out_addr (r : res (text * Z)) : list Z := match r with Ok (h, p) => 0 :: p :: out_list h | Raise e => [-1; exn_code e] end.
+(* [colon; port; host...] : format_address, then parse_address of the result *)
+Definition run_addr_format (inp : list Z) : list Z :=
+  match inp with
+  | c :: p :: host => let a := format_address (negb (c =? 0)) host p in out_list a ++ out_addr (parse_address a)
+  | _ => bad_input
+  end.
+Definition run_addr_parse (inp : list Z) : list Z := out_addr (parse_address inp).
